@@ -34,7 +34,8 @@ func init() {
 			"in a second exploration every execution of a `range` over a map is a choice among all permutations of its keys (deviation bound 2 from sorted order, alone and combined with <=1 preemption; a map with more than four keys is ranged in sorted or in reverse order), incl. a probe whose property names carry two stacked vendor prefixes. " +
 			"Before anything else, in the fresh process: after a warm-up of calls on the shared policy, fresh instances of two other policies must reproduce the probe outputs they gave before (results do not depend on earlier calls on another policy). Sequential histories: on 13 policies (shared policy, shipped policies, link options followed by RequireParseableURLs(false), shorthand CSS properties, ...), for all ordered pairs (x, y) of 119 inputs, y after x on one fresh instance equals the result of the first and only call of a fresh process (so that process-global state cannot taint the reference); a deviation is re-derived with the shortest history that reproduces in a fresh process. Oracle per execution: every call returns exactly the sequential result, repeated calls agree, and sanitising does not change later behaviour: the deep snapshot of the policy object graph is compared before and after every execution (package-level variables every 32nd) and, if it changed, the used policy must still agree with a fresh one on 11 probe documents (an object change without behaviour change is noted in the evidence, not reported). A recorded schedule is replayed twice and must reproduce the same point trace. " +
 			"Separately (outside the family, because a cooperative scheduler's hand-offs are happens-before edges): the same bodies run free under Go's race detector, 4 goroutines x 2000 iterations. " +
-			"states = scheduling / map-order choice points visited, transitions = complete executions; non-trivial = executions with at least one preemption or one non-sorted map order.",
+			"states = scheduling / map-order choice points visited, transitions = complete executions; non-trivial = executions with at least one preemption or one non-sorted map order." +
+			" Enum entries of the shared policy are in mixed case; in the race pass the shared policy meets its first calls concurrently and one call in four is SanitizeReaderToWriter into a Write-only destination.",
 		Assumptions: []string{
 			"memory model: sequentially consistent interleaving at statement granularity; unsynchronised accesses are the race detector's part",
 			"policies are built through NewPolicy and the builder API before sharing, as the property states",
